@@ -7,10 +7,18 @@ pub uninterp spec fn blen(s: Seq<char>) -> nat;
 // UTF-8 encoding of a string view (bytes); `String::from_utf8(v) = Ok(s)` means s encodes to exactly v
 pub uninterp spec fn utf8(s: Seq<char>) -> Seq<u8>;
 pub assume_specification [String::from_utf8] (v: Vec<u8>) -> (r: core::result::Result<String, std::string::FromUtf8Error>)
-    ensures r is Ok ==> utf8(r->Ok_0@) == v@;
+    ensures
+        r is Ok ==> utf8(r->Ok_0@) == v@,
+        valid_utf8(v@) ==> r is Ok;
 pub assume_specification<T: Clone> [<[T]>::to_vec] (s: &[T]) -> (r: Vec<T>)
     ensures r@ == s@;
 
+pub open spec fn valid_utf8(b: Seq<u8>) -> bool { exists|s: Seq<char>| utf8(s) == b }
+// UTF-8 encoding is injective
+#[verifier::external_body]
+pub broadcast proof fn axiom_utf8_injective(a: Seq<char>, b: Seq<char>)
+    ensures #![trigger utf8(a), utf8(b)] utf8(a) == utf8(b) ==> a == b,
+{}
 pub open spec fn first_eq(s: Seq<u8>) -> int
     decreases s.len()
 {
@@ -91,3 +99,18 @@ pub proof fn lemma_enc_all_nonempty(ps: Seq<&TxtProperty>, n: int)
     requires n > 0
     ensures enc_all(ps, n).len() > 0
 {}
+
+// ---- exact decoding spec (used by the round-trip lemma) ----
+pub open spec fn str_k(txt: Seq<u8>, k: int) -> Seq<u8> {
+    txt.subrange(nth_start(txt, k) + 1, txt_next(txt, nth_start(txt, k)))
+}
+pub open spec fn key_bytes(s: Seq<u8>) -> Seq<u8> {
+    if first_eq(s) == s.len() { s } else { s.subrange(0, first_eq(s)) }
+}
+// the record consists of exactly n complete strings before decoding stops
+pub open spec fn is_total(txt: Seq<u8>, n: int) -> bool {
+    0 <= n && nth_start(txt, n) >= 0 && txt_next(txt, nth_start(txt, n)) < 0
+}
+pub open spec fn keys_valid(txt: Seq<u8>, n: int) -> bool {
+    forall|k: int| 0 <= k < n ==> valid_utf8(key_bytes(#[trigger] str_k(txt, k)))
+}
